@@ -23,3 +23,5 @@ func TestC08Sub(t *testing.T)     { RunProp(t, propC08Sub) }
 func TestC09RT(t *testing.T)      { RunProp(t, propC09RT) }
 func TestC04(t *testing.T)        { RunProp(t, propC04) }
 func TestC04Cleanup(t *testing.T) { RunProp(t, propC04Cleanup) }
+func TestC03(t *testing.T)        { RunProp(t, propC03) }
+func TestC03Enum(t *testing.T)    { RunEnum(t, propC03) }
